@@ -43,7 +43,19 @@ Family `patterns`: the mode drivers on messages whose 16-byte blocks are RELATED
 Family `ivs`    : aes_cbc_{encrypt,decrypt} x 3 key sizes x message of 0..2 (thorough 0..3) blocks - the EMPTY message included - x every
                   IV of the IV alphabet {zero, FF..FF, each single bit (128), each single FF byte (16)} (thorough: + every byte value
                   1..254 at every byte position).  quick 146 IVs = 2628 cases, thorough 4210 IVs = 101040 cases.
-Every black-box family (blocks, modes, wrapper, patterns, ivs, cache, history): a call with LEGAL arguments that raises an exception of
+Family `long`   : the mode drivers on LONG messages (position- / length-dependent behaviour: buffering, segmenting, chunk thresholds).
+                  4 public functions x 3 key sizes x every block count of the length alphabet; data = pairwise distinct non-periodic
+                  blocks (block i = (i + 1 + 7919 * seed) * odd constant mod 2^128), fixed non-zero IV.  Oracle: result == reference
+                  (SP 800-38A chaining over verif/ref/aes.py, memoised) AND the inverse function applied to the library's result gives the
+                  input back.  Because the whole output is compared, the longest message judges the chaining at EVERY block position up
+                  to the bound; the many lengths judge length-dependent path switches.
+                  quick   : every block count 0..40 and {2^k - 1, 2^k, 2^k + 1 : k = 3..9} (max 513 blocks = 8 KiB) = 53 lengths, 636 cases
+                  thorough: every block count 0..520 and {2^k - 1, 2^k, 2^k + 1 : k = 3..13} (max 8193 blocks = 128 KiB) = 533 lengths, 6396 cases
+Family `wraplong`: the stream wrapper CryptAES(key).encrypt / .decrypt on long messages: 3 key sizes x every BYTE length
+                  {2^k - 1, 2^k, 2^k + 1 : k = 7..12} (max 4097 bytes = 258 blocks; thorough k = 7..15); same oracle as `wrapper` (IV + PKCS#7-padded length, reference
+                  decryption of the library's ciphertext = message + padding, decrypt(encrypt(m)) == m, decrypt of a reference
+                  ciphertext == m).
+Every black-box family (blocks, modes, wrapper, patterns, ivs, long, wraplong, cache, history): a call with LEGAL arguments that raises an exception of
                   any type is a failure of clause `raises` (never a harness error).
 """
 from __future__ import annotations
@@ -909,6 +921,154 @@ def fam_ivs(arg):
     return ev, fails, outs
 
 
+# ------------------------------------------------------------------ long messages (position- / length-dependent behaviour), black-box
+
+_LONG_MULT = 0x9E3779B97F4A7C15F39CC0605CEDC835      # odd: i -> i * _LONG_MULT mod 2^128 is a bijection, so all blocks are distinct
+LONG_MAX = 8193
+
+
+def long_lengths(tier):
+    """block counts: every count 0..C and the neighbours of every power of two 2^3..2^K"""
+    c, k = (40, 9) if tier == "quick" else (520, 13)
+    return sorted(set(range(c + 1)) | {(1 << e) + d for e in range(3, k + 1) for d in (-1, 0, 1)})
+
+
+def wraplong_lengths(tier):
+    """byte lengths of wrapper messages: the neighbours of every power of two 2^7..2^K"""
+    k = 12 if tier == "quick" else 15
+    return sorted({(1 << e) + d for e in range(7, k + 1) for d in (-1, 0, 1)})
+
+
+_LONG_DATA = {}
+
+
+def _long_data(nbytes):
+    """the first `nbytes` bytes of the long-message data stream (pairwise distinct 16-byte blocks, no period)"""
+    s = _seed()
+    have = _LONG_DATA.get(s, b"")
+    if len(have) < nbytes:
+        nb = (nbytes + 15) // 16
+        have = b"".join((((i + 1 + 7919 * s) * _LONG_MULT) & ((1 << 128) - 1)).to_bytes(16, "big") for i in range(nb))
+        _LONG_DATA[s] = have
+    return have[:nbytes]
+
+
+def _long_iv():
+    return _msg(16, 70 + _seed())
+
+
+def run_long(m, ref, fn, bits, nblocks):
+    """One long-message case -> [(clause, msg)]: fn(key, [iv,] first nblocks blocks of the data stream) == reference, and the inverse
+    function gives the input back."""
+    key = _pattern_key(bits)
+    cbc = "cbc" in fn
+    iv = _long_iv() if cbc else None
+    data = _long_data(16 * nblocks)
+    exp = ref.run(fn, key, iv, data)
+    desc = f"{fn}(AES-{bits} key, {'IV ' + h(iv) + ', ' if cbc else ''}{nblocks} distinct blocks = {16 * nblocks} bytes)"
+    try:
+        got = getattr(m, fn)(key, iv, data) if cbc else getattr(m, fn)(key, data)
+    except Exception as e:  # noqa
+        return [("raises", f"{desc} raised {type(e).__name__}: {e} (arguments are legal)")]
+    if got != exp:
+        ok = isinstance(got, (bytes, bytearray))
+        bad = [i for i in range(nblocks) if not ok or got[16 * i:16 * i + 16] != exp[16 * i:16 * i + 16]]
+        return [("modes", f"{desc}: result differs from FIPS-197/SP 800-38A in {len(bad)} block(s), first wrong block index {bad[:1]} "
+                          f"({len(got) if hasattr(got, '__len__') else '?'} bytes returned, {len(exp)} expected)")]
+    inv = _INVERSE[fn]
+    try:
+        back = getattr(m, inv)(key, iv, got) if cbc else getattr(m, inv)(key, got)
+    except Exception as e:  # noqa
+        return [("raises", f"{inv} applied to the result of {desc} raised {type(e).__name__}: {e} (arguments are legal)")]
+    if back != data:
+        return [("modes", f"{inv} does not invert {desc}")]
+    return []
+
+
+def fam_long(arg):
+    """one function x one key size x every block count of `lengths`"""
+    bits, fn, lengths = arg
+    m = _m()
+    ref = _Ref()
+    ev = 0
+    fails = []
+    outs = set()
+    for nb in lengths:
+        ev += 1
+        for clause, msg in run_long(m, ref, fn, bits, nb):
+            fails.append((clause, ["long", fn, bits, nb], msg))
+        outs.add(nb)
+    return ev, fails, outs
+
+
+def _wrap_provider(m):
+    if not m.patch_pypdf_fallback_aes():
+        return None
+    import pypdf._crypt_providers._fallback as fb
+    return fb
+
+
+def run_wraplong(m, ref, bits, ln):
+    """CryptAES on the first `ln` bytes of the data stream -> [(clause, msg)] (oracle of family `wrapper`)"""
+    try:
+        fb = _wrap_provider(m)
+    except Exception as e:  # noqa
+        return [("raises", f"patch_pypdf_fallback_aes() raised {type(e).__name__}: {e}")]
+    if fb is None:
+        return [("wrapper", "patch_pypdf_fallback_aes() returned False: no fallback provider")]
+    key = _pattern_key(bits)
+    msg = _long_data(ln)
+    padn = 16 - ln % 16
+    padded = msg + bytes([padn]) * padn
+    desc = f"CryptAES(AES-{bits} key) on a {ln}-byte message"
+    out = []
+    try:
+        c = fb.CryptAES(key)
+        ct = c.encrypt(msg)
+    except Exception as e:  # noqa
+        ct = None
+        out.append(("raises", f"{desc}: encrypt raised {type(e).__name__}: {e} (arguments are legal)"))
+    if ct is not None:
+        if not isinstance(ct, (bytes, bytearray)) or len(ct) != 16 + len(padded):
+            out.append(("wrapper", f"{desc}: encrypt gives {len(ct) if hasattr(ct, '__len__') else type(ct).__name__} bytes, expected IV + {len(padded)}"))
+        else:
+            plain = R.cbc_decrypt(key, bytes(ct[:16]), bytes(ct[16:]))
+            if plain != padded:
+                bad = [i for i in range(len(padded) // 16) if plain[16 * i:16 * i + 16] != padded[16 * i:16 * i + 16]]
+                out.append(("wrapper", f"{desc}: the ciphertext decrypts (reference) to something else than message + PKCS#7 padding "
+                                       f"({len(bad)} wrong block(s), first {bad[:1]})"))
+            try:
+                back = c.decrypt(ct)
+                if back != msg:
+                    out.append(("wrapper", f"{desc}: decrypt(encrypt(m)) != m ({len(back) if hasattr(back, '__len__') else '?'} bytes returned)"))
+            except Exception as e:  # noqa
+                out.append(("wrapper", f"{desc}: decrypt(encrypt(m)) raised {type(e).__name__}: {e}"))
+    iv = _long_iv()
+    rct = iv + ref.run("aes_cbc_encrypt", key, iv, padded)
+    try:
+        back = fb.CryptAES(key).decrypt(rct)
+        if back != msg:
+            out.append(("wrapper", f"{desc}: decrypt of the reference ciphertext (pad {padn}) returns {len(back) if hasattr(back, '__len__') else '?'} bytes != message"))
+    except Exception as e:  # noqa
+        out.append(("wrapper", f"{desc}: decrypt of the reference ciphertext (pad {padn}) raised {type(e).__name__}: {e}"))
+    return out
+
+
+def fam_wraplong(arg):
+    bits, lengths = arg
+    m = _m()
+    ref = _Ref()
+    ev = 0
+    fails = []
+    outs = set()
+    for ln in lengths:
+        ev += 1
+        for clause, msg in run_wraplong(m, ref, bits, ln):
+            fails.append((clause, ["wraplong", bits, ln], msg))
+        outs.add(ln)
+    return ev, fails, outs
+
+
 # ------------------------------------------------------------------ histories (state between calls), black-box, from a fresh module
 
 
@@ -1052,7 +1212,7 @@ def fam_history(arg):
 
 FAMS = {"tables": fam_tables, "gfmul": fam_gfmul, "shiftrows": fam_shiftrows, "mix_small": fam_mix_small, "mix_full": fam_mix_full,
         "keyschedule": fam_keyschedule, "blocks": fam_blocks, "modes": fam_modes, "lengths": fam_lengths, "wrapper": fam_wrapper,
-        "cache": fam_cache, "history": fam_history, "patterns": fam_patterns, "ivs": fam_ivs}
+        "cache": fam_cache, "history": fam_history, "patterns": fam_patterns, "ivs": fam_ivs, "long": fam_long, "wraplong": fam_wraplong}
 
 
 def _task(arg):
@@ -1060,6 +1220,9 @@ def _task(arg):
     _ABSENT.clear()
     ev, fails, outs = FAMS[name](a)
     return {"name": name, "ev": ev, "fails": fails[:500], "nfails": len(fails), "outs": len(outs), "absent": sorted(_ABSENT)}
+
+
+_REEXEC_REF = _Ref()      # reference block results are a pure function of (key, block): shared by the re-executions of long cases
 
 
 def reexec(fmt, case):
@@ -1085,6 +1248,16 @@ def reexec(fmt, case):
         if fn not in FNS[2:] or bits not in (128, 192, 256) or name not in set(iv_alphabet("thorough")) or not 0 <= nblocks <= 8:
             return []
         return run_iv(_m(), _Ref(), fn, bits, name, nblocks)
+    if case[0] == "long":
+        _, fn, bits, nb = case
+        if fn not in FNS or bits not in (128, 192, 256) or not isinstance(nb, int) or not 0 <= nb <= LONG_MAX:
+            return []
+        return run_long(_m(), _REEXEC_REF, fn, bits, nb)
+    if case[0] == "wraplong":
+        _, bits, ln = case
+        if bits not in (128, 192, 256) or not isinstance(ln, int) or not 0 <= ln <= 16 * LONG_MAX:
+            return []
+        return run_wraplong(_m(), _REEXEC_REF, bits, ln)
     if case[0] in ("cache", "cache_size"):
         seq = list(case[1])
         if not seq:
@@ -1135,6 +1308,21 @@ def shrinks(case):
             yield ["iv", fn, bits, name, nb]
         if bits != 128:
             yield ["iv", fn, 128, name, nblocks]
+    if case[0] == "long":
+        # shorter message: half, three quarters, one block less; then the smallest key size
+        _, fn, bits, nb = case
+        for c in sorted({nb // 2, nb * 3 // 4, nb - 1}):
+            if 0 <= c < nb:
+                yield ["long", fn, bits, c]
+        if bits != 128:
+            yield ["long", fn, 128, nb]
+    if case[0] == "wraplong":
+        _, bits, ln = case
+        for c in sorted({ln // 2, ln * 3 // 4, ln - 16, ln - 1}):
+            if 0 <= c < ln:
+                yield ["wraplong", bits, c]
+        if bits != 128:
+            yield ["wraplong", 128, ln]
     return
 
 
@@ -1158,6 +1346,10 @@ def fingerprint_view(case):
         return ["pattern", case[1], case[3], case[5]]
     if case and case[0] == "iv":            # the IV class (zero / ff / bit / byte / val), not the position
         return ["iv", case[1], case[3].split(":")[0], case[4]]
+    if case and case[0] == "long":          # function and minimal failing length; the key size stays in the case
+        return ["long", case[1], case[3]]
+    if case and case[0] == "wraplong":
+        return ["wraplong", case[2]]
     return case
 
 
@@ -1186,6 +1378,10 @@ def embeds(small, big):
         return False
     if small[0] == "iv":
         return small[1] == big[1] and small[3].split(":")[0] == big[3].split(":")[0] and small[4] <= big[4]
+    if small[0] == "long":                  # same function, a message at least as long
+        return small[1] == big[1] and small[3] <= big[3]
+    if small[0] == "wraplong":
+        return small[2] <= big[2]
     return small[0] != "table" or small[1] == big[1]
 
 
@@ -1224,6 +1420,16 @@ def run(ctx):
                   "cases": (npat["ecb"] + npat["cbc"]) * 2 * len(SIDES) * len(assigns) * 3}
     iv_bounds = {"ivs": len(iv_alphabet(ctx.tier)), "alphabet": "zero, ff, 128 single bits, 16 single FF bytes" + ("" if ctx.quick else ", 16 x 254 single byte values"),
                  "message_blocks": f"0..{2 if ctx.quick else 3}", "functions": list(FNS[2:]), "key_sizes": [128, 192, 256]}
+    ll = long_lengths(ctx.tier)
+    wl = wraplong_lengths(ctx.tier)
+    for bits in (128, 192, 256):
+        tasks += [("long", (bits, fn, tuple(ll))) for fn in FNS]
+        tasks.append(("wraplong", (bits, tuple(wl))))
+    long_bounds = {"block_counts": f"every 0..{40 if ctx.quick else 520} and 2^k-1, 2^k, 2^k+1 for k = 3..{9 if ctx.quick else 13}", "lengths": len(ll),
+                   "max_blocks": ll[-1], "functions": list(FNS), "key_sizes": [128, 192, 256], "cases": len(ll) * len(FNS) * 3,
+                   "data": "pairwise distinct non-periodic blocks, fixed non-zero IV", "oracle": "== reference, inverse function restores the input"}
+    wraplong_bounds = {"byte_lengths": f"2^k-1, 2^k, 2^k+1 for k = 7..{12 if ctx.quick else 15}", "lengths": len(wl), "max_bytes": wl[-1],
+                       "key_sizes": [128, 192, 256], "cases": len(wl) * 3}
     if not ctx.quick:
         tasks += [("mix_full", (a, a + 2)) for a in range(0, 256, 2)]
     random.Random(ctx.seed).shuffle(tasks)
@@ -1254,18 +1460,22 @@ def run(ctx):
                    "step judged (legal -> reference result, illegal -> ValueError); every equality pattern among the blocks of a message "
                    "(all set partitions of the block positions, CBC: of IV + blocks) on the input or on the expected output of each of the "
                    "4 functions x 3 key sizes x symbol assignments (symbol 0 = data / zero / FF / 00..01 block); CBC with every IV of an IV "
-                   "alphabet x 0..k blocks (the empty message included); a valid call that raises ANY exception is a `raises` failure in "
+                   "alphabet x 0..k blocks (the empty message included); the 4 mode drivers on long messages of pairwise distinct blocks for every "
+                   "block count 0..C and the neighbours of every power of two up to 2^K (+ inverse function restores the input), the stream "
+                   "wrapper on byte lengths next to every power of two 2^7..2^K; a valid call that raises ANY exception is a `raises` failure in "
                    "every black-box family; distinct_nontrivial = distinct observed outputs summed "
                    "over families",
            "per_family": per, "exhaustive": True,
            "bounds": {"mixcolumns": "2-byte columns" if ctx.quick else "2^32", "cache_sequence_length": L, "history": hist_bounds,
-                      "patterns": pat_bounds, "ivs": iv_bounds},
+                      "patterns": pat_bounds, "ivs": iv_bounds, "long": long_bounds, "wraplong": wraplong_bounds},
            "hooks_absent": sorted(absent),
            "samples": [{"family": "blocks", "case": "AES-192 key=00..17 pt=00112233.. -> dda97ca4864cdfe06eaf70a0ec0d7191 (FIPS-197 C.2)"},
                        {"family": "wrapper", "case": "CryptAES(key).encrypt(37-byte msg) -> 16-byte IV + 48 bytes; reference CBC decrypt ends in 0b x 11"},
                        {"family": "cache", "case": "key-use sequence (0,1,2,3,4,0): eviction of key 0 then re-expansion"},
                        {"family": "patterns", "case": "aes_ecb_decrypt, pattern 0012 on the input: ciphertext blocks A|A|B|C -> D(A)|D(A)|D(B)|D(C)"},
                        {"family": "ivs", "case": "aes_cbc_decrypt(key, IV = bit 127 only, b'') -> b''"},
+                       {"family": "long", "case": "aes_cbc_encrypt(AES-192 key, IV, 257 distinct blocks) == SP 800-38A chain of 257 blocks; aes_cbc_decrypt restores the input"},
+                       {"family": "wraplong", "case": "CryptAES(key).encrypt(4096-byte msg) -> IV + 4112 bytes (257 blocks, pad 10 x 16)"},
                        {"family": "history", "case": "aes_ecb_encrypt k16a ok ; aes_cbc_decrypt b17x ok (ValueError) ; aes_ecb_decrypt b17x ok (ValueError again)"}]}
     return {"coverage": cov, "failures": fails, "harness_errors": herr,
             "assumptions": ["reference AES (verif/ref/aes.py) is itself validated against the hard-coded FIPS-197/SP 800-38A vectors in the same run",
